@@ -75,7 +75,7 @@ func genVRDoc(r *Rand, entry string) Doc {
 		return docOf(withTrailer(r, genContainerDoc(r, obj, n, []int{100, 1000, 8000}[r.Intn(3)])), "container")
 	case 1: // failing: mutated somewhere
 		b := genContainerDoc(r, obj, memberCount(r), 600)
-		return docOf(mutateDoc(r, b), "container-mut")
+		return docMut(r, b, "container-mut")
 	case 2: // wrong root type / null
 		return docOf([]byte([]string{"null", " null", "1", `"s"`, "true", "[]", "{}", "[1]", `{"a":1}`, ""}[r.Intn(10)]), "root-mismatch")
 	case 3: // number overflow somewhere inside
